@@ -36,6 +36,8 @@ def scenarios(rng, n):
                 words += [rng.choice(words)] * rng.randint(1, 3)
             if rng.random() < 0.4:
                 words += ["polish", "Polish", "secretword"]
+            if rng.random() < 0.25:   # an empty entry (NewWordList keeps it; a draw may land on it)
+                words += [""]
             if rng.random() < 0.15:   # a word too long for the token index (> 255 characters)
                 words = ["".join(chr(c) for c in [rng.choice(PUA) for _ in range(300)])] + words[:1]
             sep = rng.choice([dict(sep="char", sepChar=[0x2192]), dict(sep="char", sepChar=[]), dict(sep="SFDigits1", sepChar=[]),
